@@ -262,6 +262,11 @@ def patternPart (s : Sexp) : R PatternPart := do
     let v ← optVar (← need "PatternPart" "Variable" fs)
     let sp ← asBool "PatternPart" (← need "PatternPart" "ShortestPathPattern" fs)
     let asp ← asBool "PatternPart" (← need "PatternPart" "AllShortestPathsPattern" fs)
+    -- set by the optimiser's traversal reversal: the elements are stored right-to-left and a bound path is re-reversed when materialised
+    let reversed ← (match fld "PathDirectionReversed" fs with
+      | some b => asBool "PatternPart" b
+      | none => pure false)
+    if reversed && v.isSome then .error "path-variable-over-reversed-pattern" else
     patternOf v sp asp (← asList "PatternPart" (← need "PatternPart" "PatternElements" fs))
   | _ => .error s!"PatternPart:{tagOf s}"
 
